@@ -304,11 +304,17 @@ def part_header_not_data(sh, res):
             got = drive.run_py('select NR, a1', qcheck.copy_table(T), None, hdr, None)
             observed['table'] = got['records']
             p1, po = os.path.join(scratch, 't1.csv'), os.path.join(scratch, 'o.csv')
+            for dlm, pol in ((',', 'quoted'), (';', 'quoted'), ('\t', 'simple'), (' ', 'whitespace'), (',', 'quoted_rfc'), ('|', 'simple')):
+                with open(p1, 'w', newline='') as f:
+                    f.write(refcsv.ref_write([hdr] + T, dlm, pol))
+                rb.query_csv('select NR, a1', p1, dlm, pol, po, ',', 'quoted', 'utf-8', [], True)
+                with open(po, newline='') as f:
+                    observed['csv %r %s' % (dlm, pol)] = [[int(r[0]), r[1]] for r in refcsv.ref_read(f.read(), ',', 'quoted').records[1:]]
             with open(p1, 'w', newline='') as f:
-                f.write(refcsv.ref_write([hdr] + T, ',', 'quoted'))
-            rb.query_csv('select NR, a1', p1, ',', 'quoted', po, ',', 'quoted', 'utf-8', [], True)
+                f.write(refcsv.ref_write([[hdr[0]]] + [[r[0]] for r in T], '', 'monocolumn'))
+            rb.query_csv('select NR, a1', p1, '', 'monocolumn', po, ',', 'quoted', 'utf-8', [], True)
             with open(po, newline='') as f:
-                observed['csv'] = [[int(r[0]), r[1]] for r in refcsv.ref_read(f.read(), ',', 'quoted').records[1:]]
+                observed['csv monocolumn'] = [[int(r[0]), r[1]] for r in refcsv.ref_read(f.read(), ',', 'quoted').records[1:]]
             out = rb.query_pandas_dataframe('select NR, a1', pd.DataFrame(T, columns=hdr), [])
             observed['pandas'] = [[int(r[0]), r[1]] for r in out.itertuples(index=False)]
             conn = sqlite3.connect(':memory:')
